@@ -17,6 +17,6 @@ PROP = dict(
           ">=2 tables and >=3 different GOMAXPROCS values. Distinct = distinct case JSON."),
     assumptions=["the Go race detector reports unsynchronised conflicting accesses that are executed"],
     units=[
-        R("rapid", "B", "./cmd/benchstat", "TestC15Rapid", (250, 8), (1500, 16), race=True),
+        R("rapid", "B", "./cmd/benchstat", "TestC15Rapid", (120, 8), (1000, 16), race=True),
     ],
 )
